@@ -620,6 +620,17 @@ RxStrMatch(X, S) ==
 (* 15.5.4.11 Table 22: replacement text.  m = number of captures.            *)
 (* $n / $nn with n > m are implementation-defined: RxReplDefined says         *)
 (* whether a replacement string stays clear of them.                         *)
+(* Where Table 22 says "implementation-defined" ($n with n > m; $nn with nn > m, which includes "$10"    *)
+(* when there are fewer than 10 captures: the $n row does not apply to a $n that is followed by a digit) *)
+(* the expansion carries the marker RxWild for the whole $n / $nn token: any text may stand there.  A   *)
+(* result with markers is reported as a FRAME: the units before the first and after the last marker.    *)
+RxWild == -1
+RxFrame(u) ==
+    LET ws == {j \in 1..Len(u) : u[j] = RxWild}
+        lo == CHOOSE j \in ws : \A k \in ws : j <= k
+        hi == CHOOSE j \in ws : \A k \in ws : j >= k
+    IN  [t |-> "frame", pre |-> SubSeq(u, 1, lo - 1), suf |-> SubSeq(u, hi + 1, Len(u))]
+RxResultStr(u) == IF \E j \in 1..Len(u) : u[j] = RxWild THEN RxFrame(u) ELSE StrV(u)
 RECURSIVE RxExpand(_, _, _, _)
 RxExpand(rep, i, S, f) ==
     IF i > Len(rep) THEN <<>>
@@ -635,10 +646,12 @@ RxExpand(rep, i, S, f) ==
                     IF D("D10_replace_two_digit_ref_as_one") /\ c # 48 /\ c - 48 <= m
                     THEN capS(c - 48) \o RxExpand(rep, i + 2, S, f)
                     ELSE IF nn >= 1 /\ nn <= m THEN capS(nn) \o RxExpand(rep, i + 3, S, f)
-                    ELSE <<36>> \o RxExpand(rep, i + 1, S, f)
+                    ELSE IF nn = 0 THEN <<36>> \o RxExpand(rep, i + 1, S, f)                       \* "$00" is not in the table: unchanged
+                    ELSE <<RxWild>> \o RxExpand(rep, i + 3, S, f)                                  \* nn > m: implementation-defined
                [] IsDec(c) ->                                                                    \* $n
                     IF c - 48 >= 1 /\ c - 48 <= m THEN capS(c - 48) \o RxExpand(rep, i + 2, S, f)
-                    ELSE <<36>> \o RxExpand(rep, i + 1, S, f)
+                    ELSE IF c = 48 THEN <<36>> \o RxExpand(rep, i + 1, S, f)                       \* "$0": unchanged
+                    ELSE <<RxWild>> \o RxExpand(rep, i + 2, S, f)                                  \* n > m: implementation-defined
                [] OTHER -> <<36>> \o RxExpand(rep, i + 1, S, f)
 RECURSIVE RxReplDefinedAt(_, _, _)
 RxReplDefinedAt(rep, i, m) ==
@@ -675,7 +688,7 @@ RxStrReplace(X, S, rv) ==
         li == IF ~X.g THEN X.li                                             \* lastIndex is not mentioned for this case
               ELSE IF D("D10_replace_global_lastindex") THEN (IF Len(fs) = 0 THEN X.li ELSE IntV(Utf8Len(RxSub(S, 0, fs[Len(fs)].e))))   \* a byte offset
               ELSE IntV(0)                                                  \* "in the same manner as in match, including the update of lastIndex"
-    IN  [R |-> [X EXCEPT !.li = li], v |-> ArrV(<<StrV(r.s), ArrV(r.log)>>)]
+    IN  [R |-> [X EXCEPT !.li = li], v |-> ArrV(<<RxResultStr(r.s), ArrV(r.log)>>)]
 
 (* 15.5.4.12 String.prototype.search(regexp): lastIndex and global ignored, lastIndex unchanged *)
 RxStrSearch(X, S) ==
